@@ -60,7 +60,10 @@ type fsTarget struct {
 	BusyText    string `json:"busy_text"`
 	RejectTypes []int  `json:"reject_types"`
 	FaultKey    string `json:"fault_key"`  // the first RESTORE of this (destination) key is answered with FaultText instead of being executed
-	FaultText   string `json:"fault_text"` // e.g. "BUSY Redis is busy running a script. ...", "OOM command not allowed when used memory > 'maxmemory'."
+	FaultCmd    string `json:"fault_cmd"`  // the command that is refused (default RESTORE): RPUSH / HSET / SADD / ZADD ... for the element-wise routes
+	FaultNth    int    `json:"fault_nth"`  // ... and which occurrence of it for that key (default the first)
+	FaultText   string `json:"fault_text"`
+	DelayMs     int    `json:"delay_ms"` // every RESTORE takes this long (a slow target: the run spans the tool's one-second progress ticks); sched "free" only // e.g. "BUSY Redis is busy running a script. ...", "OOM command not allowed when used memory > 'maxmemory'."
 	NoIdleFreq  bool   `json:"no_idle_freq"`
 }
 
@@ -465,21 +468,30 @@ func fsOne(tr *tracer.T, seed int64, c *fsCase) int {
 	// a fault at the target: one RESTORE is refused with an error reply that has nothing to do with the key existing
 	var faultMu sync.Mutex
 	faultFired := false
+	faultSeen := 0
 	fault := func(cmd string, args [][]byte) *mredis.Reply {
-		if c.Cfg.Target.FaultKey == "" || cmd != "RESTORE" || len(args) == 0 || string(args[0]) != c.Cfg.Target.FaultKey {
+		fcmd := c.Cfg.Target.FaultCmd
+		if fcmd == "" {
+			fcmd = "RESTORE"
+		}
+		if c.Cfg.Target.FaultKey == "" || cmd != fcmd || len(args) == 0 || string(args[0]) != c.Cfg.Target.FaultKey {
 			return nil
 		}
 		faultMu.Lock()
 		defer faultMu.Unlock()
-		if faultFired {
+		faultSeen++
+		if faultFired || (c.Cfg.Target.FaultNth > 1 && faultSeen != c.Cfg.Target.FaultNth) {
 			return nil
 		}
 		faultFired = true
 		r := mredis.Err(c.Cfg.Target.FaultText)
 		return &r
 	}
-	if c.Cfg.Target.FaultKey != "" {
+	if c.Cfg.Target.FaultKey != "" || c.Cfg.Target.DelayMs > 0 {
 		srv.SetHook(func(conn, db int, cmd string, args [][]byte) mredis.HookResult {
+			if c.Cfg.Target.DelayMs > 0 && cmd == "RESTORE" {
+				time.Sleep(time.Duration(c.Cfg.Target.DelayMs) * time.Millisecond)
+			}
 			return mredis.HookResult{Override: fault(cmd, args)}
 		})
 	}
